@@ -30,7 +30,10 @@ pub struct Cfg {
     /// member 0 elected and a seed entry committed in quiescence-separated steps, then
     /// `elections` racy rounds (prime a challenger, then in one burst: a request to member 0, a
     /// request to the challenger, heartbeat, the challenger's election interrupt, heartbeat), each
-    /// followed by `pumps` settle rounds of heartbeats to every member (`requests` is unused)
+    /// followed by `pumps` settle rounds of heartbeats to every member (`requests` is unused);
+    /// "phased_post": phased, plus after every round one more request to the challenger and to
+    /// member 0 with two heartbeat rounds (whoever leads by then appends and replicates);
+    /// "dueling": see `run_raft`
     pub shape: &'static str,
     pub elections: usize,
     pub requests: usize,
@@ -52,6 +55,8 @@ impl Cfg {
                 "phased"
             } else if v["shape"] == "phased_post" {
                 "phased_post"
+            } else if v["shape"] == "dueling" {
+                "dueling"
             } else {
                 "concurrent"
             },
@@ -195,7 +200,25 @@ pub fn run_raft(rs: &RaftSim, cfg: Cfg, ch: &mut Chooser) -> Exec {
             rec.push(h);
             return;
         }
-        if cfg.shape == "seeded" {
+        if cfg.shape == "dueling" {
+            // every member but member 0 times out at once (cf. the repo's
+            // even_cluster_simultaneous_candidates_exactly_one_leader_per_term); after the election
+            // settles, `elections` waves of requests to both candidates with heartbeat pumps for all
+            for member in 1..N as u32 {
+                rs.election.send(member, ());
+            }
+            hydro_lang::sim::quiesce().await;
+            for wave in 0..cfg.elections {
+                for member in 1..N as u32 {
+                    rs.request.send(member, format!("duel-{wave}-m{member}"));
+                }
+                for _ in 0..cfg.pumps {
+                    for member in 0..N as u32 {
+                        rs.heartbeat.send(member, ());
+                    }
+                }
+            }
+        } else if cfg.shape == "seeded" {
             rs.election.send(0, ());
             hydro_lang::sim::quiesce().await;
             for wave in 0..cfg.elections {
@@ -220,9 +243,11 @@ pub fn run_raft(rs: &RaftSim, cfg: Cfg, ch: &mut Chooser) -> Exec {
                 }
             }
         }
-        for _ in 0..cfg.pumps {
-            for member in 0..N as u32 {
-                rs.heartbeat.send(member, ());
+        if cfg.shape != "dueling" {
+            for _ in 0..cfg.pumps {
+                for member in 0..N as u32 {
+                    rs.heartbeat.send(member, ());
+                }
             }
         }
         let mut h: Histories = vec![vec![]; N];
@@ -326,7 +351,13 @@ fn children(ch: &Chooser, plen: usize, bound: usize) -> Vec<Vec<usize>> {
 
 /// Deviation-bounded DFS over the subtrees rooted at `starts` (decision prefixes), with exactly
 /// the semantics of `vf_explore::explore`, but resumable from prefixes so subtrees can be sharded.
-pub fn explore_from(starts: Vec<Vec<usize>>, bound: usize, deadline: Option<Instant>, mut run: impl FnMut(&mut Chooser) -> Exec) -> Explored {
+pub fn explore_from(
+    starts: Vec<Vec<usize>>,
+    bound: usize,
+    deadline: Option<Instant>,
+    mut before: impl FnMut(&[usize], u64),
+    mut run: impl FnMut(&mut Chooser) -> Exec,
+) -> Explored {
     let mut out = Explored::default();
     let mut stack: Vec<Vec<usize>> = starts;
     stack.reverse();
@@ -338,6 +369,7 @@ pub fn explore_from(starts: Vec<Vec<usize>>, bound: usize, deadline: Option<Inst
             break;
         }
         let plen = prefix.len();
+        before(&prefix, out.executions);
         let mut ch = Chooser::replay(prefix);
         let ex = run(&mut ch);
         out.executions += 1;
@@ -379,100 +411,165 @@ fn configs(thorough: bool) -> Vec<(Cfg, usize)> {
     let c = |shape, elections, requests, pumps| Cfg { proto: "raft", shape, elections, requests, pumps };
     if thorough {
         vec![
-            (c("concurrent", 1, 1, 2), 4),
             (c("concurrent", 2, 2, 4), 3),
-            (c("seeded", 1, 2, 3), 4),
             (c("seeded", 2, 2, 4), 4),
-            (c("phased", 1, 2, 2), 4),
-            (c("phased", 2, 4, 3), 3),
+            (c("dueling", 2, 0, 2), 3),
+            (c("phased", 3, 0, 1), 3),
+            (c("phased_post", 1, 0, 1), 4),
+            (c("phased_post", 2, 0, 2), 3),
         ]
     } else {
-        vec![(c("concurrent", 2, 2, 2), 2), (c("seeded", 2, 2, 3), 3), (c("phased", 1, 2, 1), 3), (c("phased", 2, 4, 1), 2)]
+        vec![(c("concurrent", 2, 2, 2), 2), (c("seeded", 2, 2, 3), 3), (c("dueling", 1, 0, 2), 2), (c("phased", 2, 0, 1), 2), (c("phased_post", 1, 0, 1), 2)]
     }
 }
 
-/// Worker process: explores the shard `index % nshards == shard` of the root's children.
+/// A panic inside the simulated program (the dylib: e.g. raft_step's "protocol violation"
+/// guards) cannot be caught across the dylib boundary — the process aborts. Every simulation
+/// therefore runs in a worker process; before each execution the worker records the decision
+/// prefix it is about to run, so the parent can report the aborting execution as a violation.
+fn cur_path(tag: &str) -> std::path::PathBuf {
+    let dir = std::path::Path::new(env!("CARGO_MANIFEST_DIR")).join("target").join("vf_c40");
+    let _ = std::fs::create_dir_all(&dir);
+    dir.join(format!("{tag}.cur"))
+}
+
+/// Worker process entry (`VF_SIM2_WORKER` holds the JSON spec).
 pub fn worker(spec: &str) {
     let v: Value = vf_explore::serde_json::from_str(spec).unwrap_or_else(|e| machinery(&format!("bad worker spec: {e}")));
     let cfg = Cfg::from_json(&v["cfg"]);
-    let bound = v["bound"].as_u64().unwrap_or(1) as usize;
-    let (shard, nshards) = (v["shard"].as_u64().unwrap_or(0) as usize, v["nshards"].as_u64().unwrap_or(1) as usize);
-    let deadline = Instant::now() + Duration::from_secs(v["wall_s"].as_u64().unwrap_or(600));
+    let cur = cur_path(v["tag"].as_str().unwrap_or("x"));
+    let note = |prefix: &[usize], n: u64| {
+        let _ = std::fs::write(&cur, json!({"decisions": prefix, "executed": n}).to_string());
+    };
     let mut sims = Sims::new();
-    let mut root = Chooser::replay(vec![]);
-    let _ = sims.run(cfg, &mut root);
-    let starts: Vec<Vec<usize>> = children(&root, 0, bound).into_iter().enumerate().filter(|(i, _)| i % nshards == shard).map(|(_, p)| p).collect();
-    let ex = explore_from(starts, bound, Some(deadline), |ch| sims.run(cfg, ch));
-    println!("VF_SIM2_RESULT {}", ex.to_json());
+    match v["kind"].as_str().unwrap_or("") {
+        "root" => {
+            // the default execution, twice: determinism guard + the root of the search tree
+            note(&[], 0);
+            let mut c1 = Chooser::replay(vec![]);
+            let e1 = sims.run(cfg, &mut c1);
+            let mut c2 = Chooser::replay(vec![]);
+            let e2 = sims.run(cfg, &mut c2);
+            let same = c1.trace == c2.trace
+                && match (&e1, &e2) {
+                    (Exec::Done { outcome: a, .. }, Exec::Done { outcome: b, .. }) => a == b,
+                    _ => false,
+                };
+            let ex = explore_from(vec![vec![]], 0, None, &note, |ch| sims.run(cfg, ch));
+            println!("VF_SIM2_RESULT {}", json!({"same": same, "points": c1.trace.len(), "explored": ex.to_json()}));
+        }
+        "replay" => {
+            let dec: Vec<usize> = v["decisions"].as_array().map(|a| a.iter().map(|x| x.as_u64().unwrap_or(0) as usize).collect()).unwrap_or_default();
+            let ex = explore_from(vec![dec], 0, None, &note, |ch| sims.run(cfg, ch));
+            println!("VF_SIM2_RESULT {}", json!({"explored": ex.to_json()}));
+        }
+        _ => {
+            let bound = v["bound"].as_u64().unwrap_or(1) as usize;
+            let (shard, nshards) = (v["shard"].as_u64().unwrap_or(0) as usize, v["nshards"].as_u64().unwrap_or(1) as usize);
+            note(&[], 0);
+            let mut root = Chooser::replay(vec![]);
+            let _ = sims.run(cfg, &mut root);
+            let deadline = Instant::now() + Duration::from_secs(v["wall_s"].as_u64().unwrap_or(600));
+            let starts: Vec<Vec<usize>> = children(&root, 0, bound).into_iter().enumerate().filter(|(i, _)| i % nshards == shard).map(|(_, p)| p).collect();
+            let ex = explore_from(starts, bound, Some(deadline), &note, |ch| sims.run(cfg, ch));
+            println!("VF_SIM2_RESULT {}", json!({"explored": ex.to_json()}));
+        }
+    }
+    let _ = std::fs::remove_file(&cur);
 }
 
-fn explore_sharded(cfg: Cfg, bound: usize, nshards: usize, wall_s: u64, root: Explored) -> Explored {
+enum WorkerEnd {
+    Result(Value),
+    /// the process died (abort inside the simulated program): decision prefix it was running,
+    /// executions completed before, message found on its stderr
+    Crashed { decisions: Vec<usize>, executed: u64, message: String },
+}
+
+fn spawn_worker(mut spec: Value, tag: &str) -> std::process::Child {
     let exe = std::env::current_exe().unwrap_or_else(|e| machinery(&format!("current_exe: {e}")));
-    let mut kids = vec![];
-    for shard in 0..nshards {
-        let spec = json!({"cfg": cfg.json(), "bound": bound, "shard": shard, "nshards": nshards, "wall_s": wall_s}).to_string();
-        let child = std::process::Command::new(&exe)
-            .args(["--property", "C40", "--tier", "thorough"])
-            .env("VF_SIM2_WORKER", spec)
-            .stdout(std::process::Stdio::piped())
-            .stderr(std::process::Stdio::null())
-            .spawn()
-            .unwrap_or_else(|e| machinery(&format!("cannot spawn worker: {e}")));
-        kids.push(child);
+    spec["tag"] = json!(tag);
+    let _ = std::fs::remove_file(cur_path(tag));
+    std::process::Command::new(&exe)
+        .args(["--property", "C40", "--tier", "quick"])
+        .env("VF_SIM2_WORKER", spec.to_string())
+        .env("RUST_BACKTRACE", "0")
+        .stdout(std::process::Stdio::piped())
+        .stderr(std::process::Stdio::piped())
+        .spawn()
+        .unwrap_or_else(|e| machinery(&format!("cannot spawn worker: {e}")))
+}
+
+fn wait_worker(child: std::process::Child, tag: &str) -> WorkerEnd {
+    let out = child.wait_with_output().unwrap_or_else(|e| machinery(&format!("worker {tag}: {e}")));
+    let txt = String::from_utf8_lossy(&out.stdout);
+    if out.status.success()
+        && let Some(line) = txt.lines().find_map(|l| l.strip_prefix("VF_SIM2_RESULT "))
+    {
+        return WorkerEnd::Result(vf_explore::serde_json::from_str(line).unwrap_or_else(|e| machinery(&format!("worker {tag}: bad result: {e}"))));
     }
-    let mut total = root;
-    for (i, k) in kids.into_iter().enumerate() {
-        let out = k.wait_with_output().unwrap_or_else(|e| machinery(&format!("worker {i}: {e}")));
-        let txt = String::from_utf8_lossy(&out.stdout);
-        let Some(line) = txt.lines().find_map(|l| l.strip_prefix("VF_SIM2_RESULT ")) else {
-            machinery(&format!("worker {i} of {} produced no result (status {:?}): {}", cfg.key(), out.status, txt.chars().take(400).collect::<String>()));
-        };
-        let v: Value = vf_explore::serde_json::from_str(line).unwrap_or_else(|e| machinery(&format!("worker {i}: bad result: {e}")));
-        total.merge(Explored::from_json(&v));
+    let err = String::from_utf8_lossy(&out.stderr);
+    if let Some(l) = txt.lines().chain(err.lines()).find(|l| l.starts_with("MACHINERY-ERROR")) {
+        machinery(&format!("worker {tag}: {l}"));
     }
-    total
+    let cur = std::fs::read_to_string(cur_path(tag)).ok().and_then(|t| vf_explore::serde_json::from_str::<Value>(&t).ok());
+    let Some(cur) = cur else {
+        machinery(&format!("worker {tag} died (status {:?}) before its first execution: {}", out.status, err.chars().take(600).collect::<String>()));
+    };
+    // the panic message: the line after "... panicked at <location>:"
+    let lines: Vec<&str> = err.lines().collect();
+    let message = lines
+        .iter()
+        .position(|l| l.contains("panicked at"))
+        .map(|i| format!("{} {}", lines[i].trim(), lines.get(i + 1).map(|s| s.trim()).unwrap_or("")))
+        .unwrap_or_else(|| format!("process ended with {:?}: {}", out.status, err.chars().take(300).collect::<String>()));
+    WorkerEnd::Crashed {
+        decisions: cur["decisions"].as_array().map(|a| a.iter().map(|x| x.as_u64().unwrap_or(0) as usize).collect()).unwrap_or_default(),
+        executed: cur["executed"].as_u64().unwrap_or(0),
+        message,
+    }
+}
+
+/// Location-independent part of a panic message (stable violation key material).
+fn stable(msg: &str) -> String {
+    msg.rsplit(": ").next().unwrap_or(msg).chars().filter(|c| !c.is_ascii_digit()).take(60).collect::<String>().trim().to_string()
+}
+
+fn merge_end(total: &mut Explored, end: WorkerEnd, aborted: &mut u64) {
+    match end {
+        WorkerEnd::Result(v) => total.merge(Explored::from_json(&v["explored"])),
+        WorkerEnd::Crashed { decisions, executed, message } => {
+            *aborted += 1;
+            total.executions += executed + 1;
+            total.outcomes.insert(format!("abort:{}", stable(&message)));
+            if total.violation.is_none() {
+                total.violation = Some(("abort".into(), format!("the simulated program aborted: {message}"), decisions));
+            }
+        }
+    }
 }
 
 pub fn run(rep: &mut Report, thorough: bool, replay: Option<Value>) {
-    rep.rule = "case = (protocol, body shape, input configuration, simulator decision vector); default decision = first ready tick / release everything; ALL executions with at most `bound` non-default decisions anywhere in the run are enumerated (deviation-bounded DFS through hook H3); distinct = committed histories of all members".into();
-    rep.explanation = "exhaustive WITHIN the stated deviation bound (CHESS-style), NOT over all schedules. The repo's Raft wiring and test bodies (3 members, fail-stop TCP; either all timer interrupts / requests / heartbeat pumps up front, or member 0 elected first behind a quiescence barrier and then everything else at once), judged by the repo's own oracle: per member contiguous committed indices from 1, pairwise no fork at any committed position, no panic (raft_step's truncation guard)".into();
+    rep.rule = "case = (body shape, input configuration, simulator decision vector); default decision = first ready tick / release everything; ALL executions with at most `bound` non-default decisions anywhere in the run are enumerated (deviation-bounded DFS through hook H3); distinct = committed histories of all members".into();
+    rep.explanation = "exhaustive WITHIN the stated deviation bound (CHESS-style), NOT over all schedules. The repo's Raft wiring and the bodies of its own simulation tests (3 members, fail-stop TCP), judged by the repo's own oracle: per member contiguous committed indices from 1, pairwise no fork at any committed position, and no panic/abort (raft_step's own protocol-violation guards: truncation of a committed entry, two leaders in one term)".into();
     rep.assume("hook H3 (CompiledSim::verif_run_with_driver, cargo feature hydro_verif) replaces only the source of decisions");
     rep.assume("fail-stop network model of the repo's tests; no message loss");
     rep.assume("Paxos is NOT covered: paxos_core cannot be built by the repo's simulator — leader_election takes `.max()` and p_p1b `get_max_key()` of unbounded top-level streams, for which the simulator's code generator stops with todo!(\"Reduce with optional intermediates is not yet supported in simulator\"), and p_leader_heartbeat needs wall-clock sources (sample_every / timeout / source_interval_delayed) that the simulator's timer-less tokio runtime cannot run; the repo has no full-protocol Paxos simulation test either");
     let bound_override: Option<usize> = std::env::var("VF_C40_BOUND").ok().and_then(|s| s.parse().ok());
     rep.bound("raft_members", N);
-
-    let mut sims = Sims::new();
+    let pid = std::process::id();
 
     if let Some(c) = replay {
         let cfg = Cfg::from_json(&c["config"]);
-        let dec: Vec<usize> = c["decisions"].as_array().map(|a| a.iter().map(|x| x.as_u64().unwrap_or(0) as usize).collect()).unwrap_or_default();
-        let mut ch = Chooser::replay(dec);
-        let code = match sims.run(cfg, &mut ch) {
-            Exec::Done { outcome, verdict, .. } => {
-                println!("replay {}: {outcome}", cfg.key());
-                match verdict {
-                    Ok(()) => 0,
-                    Err((k, m)) => {
-                        println!("replay: {k}: {m}");
-                        1
-                    }
-                }
-            }
-            Exec::Panicked(m) => {
-                println!("replay: panicked: {m}");
-                1
-            }
-            Exec::Discarded => {
-                println!("replay: instance discarded");
-                0
-            }
-            Exec::Capped => {
-                println!("replay: decision cap hit");
-                0
-            }
-        };
-        std::process::exit(code);
+        let tag = format!("{pid}-replay");
+        let end = wait_worker(spawn_worker(json!({"kind": "replay", "cfg": cfg.json(), "decisions": c["decisions"]}), &tag), &tag);
+        let mut ex = Explored::default();
+        let mut aborted = 0;
+        merge_end(&mut ex, end, &mut aborted);
+        println!("replay {}: outcomes {:?}", cfg.key(), ex.outcomes);
+        if let Some((k, m, _)) = &ex.violation {
+            println!("replay: {k}: {m}");
+        }
+        std::process::exit(if ex.violation.is_some() { 1 } else { 0 });
     }
 
     let mut cfgs = configs(thorough);
@@ -488,41 +585,47 @@ pub fn run(rep: &mut Report, thorough: bool, replay: Option<Value>) {
             .collect();
     }
     rep.bound("deviation_bound_per_config", json!(cfgs.iter().map(|(c, b)| json!([c.key(), bound_override.unwrap_or(*b)])).collect::<Vec<_>>()));
-    let wall_per_cfg: u64 = std::env::var("VF_C40_WALL").ok().and_then(|s| s.parse().ok()).unwrap_or(if thorough { 150 } else { 60 });
+    let wall_per_cfg: u64 = std::env::var("VF_C40_WALL").ok().and_then(|s| s.parse().ok()).unwrap_or(if thorough { 170 } else { 60 });
     rep.bound("wall_cap_s_per_config", wall_per_cfg);
-    let nshards = if thorough { vf_explore::ncpu().clamp(1, 12) } else { 1 };
+    let nshards = if thorough { vf_explore::ncpu().clamp(1, 12) } else { vf_explore::ncpu().clamp(1, 4) };
+    rep.bound("worker_processes", nshards);
     for (cfg, bound) in cfgs {
         let bound = bound_override.unwrap_or(bound);
         let mut st = Stats::new();
         let t0 = Instant::now();
-        // determinism guard: the default execution twice
-        let mut c1 = Chooser::replay(vec![]);
-        let e1 = sims.run(cfg, &mut c1);
-        let mut c2 = Chooser::replay(vec![]);
-        let e2 = sims.run(cfg, &mut c2);
-        let same = c1.trace == c2.trace
-            && match (&e1, &e2) {
-                (Exec::Done { outcome: a, .. }, Exec::Done { outcome: b, .. }) => a == b,
-                _ => false,
-            };
-        if !same {
-            machinery(&format!("{}: the default execution is not reproducible ({} vs {} decisions)", cfg.key(), c1.trace.len(), c2.trace.len()));
+        let mut aborted = 0u64;
+        let mut ex = Explored::default();
+        // root: determinism guard + the default execution (also compiles the simulator once)
+        let tag = format!("{pid}-root");
+        match wait_worker(spawn_worker(json!({"kind": "root", "cfg": cfg.json()}), &tag), &tag) {
+            WorkerEnd::Result(v) => {
+                if v["same"] != true {
+                    machinery(&format!("{}: the default execution is not reproducible", cfg.key()));
+                }
+                ex.merge(Explored::from_json(&v["explored"]));
+            }
+            crash => merge_end(&mut ex, crash, &mut aborted),
         }
-        let deadline = Instant::now() + Duration::from_secs(wall_per_cfg);
-        let ex = if nshards > 1 {
-            // root execution here, its subtrees in worker processes (simulator instances are !Send)
-            let root = explore_from(vec![vec![]], 0, None, |ch| sims.run(cfg, ch));
-            explore_sharded(cfg, bound, nshards, wall_per_cfg, root)
-        } else {
-            explore_from(vec![vec![]], bound, Some(deadline), |ch| sims.run(cfg, ch))
-        };
+        if aborted == 0 {
+            let kids: Vec<(String, std::process::Child)> = (0..nshards)
+                .map(|shard| {
+                    let tag = format!("{pid}-{shard}");
+                    let child = spawn_worker(json!({"kind": "shard", "cfg": cfg.json(), "bound": bound, "shard": shard, "nshards": nshards, "wall_s": wall_per_cfg}), &tag);
+                    (tag, child)
+                })
+                .collect();
+            for (tag, child) in kids {
+                merge_end(&mut ex, wait_worker(child, &tag), &mut aborted);
+            }
+        }
         println!(
-            "  [{}] bound={} executions={} discarded={} capped_runs={} committed_something={} distinct_outcomes={} max_decisions={} wall={:.1}s{}",
+            "  [{}] bound={} executions={} discarded={} capped_runs={} aborted_workers={} committed_something={} distinct_outcomes={} max_decisions={} wall={:.1}s{}",
             cfg.key(),
             bound,
             ex.executions,
             ex.discarded,
             ex.capped_runs,
+            aborted,
             ex.committed_some,
             ex.outcomes.len(),
             ex.max_points,
@@ -534,7 +637,7 @@ pub fn run(rep: &mut Report, thorough: bool, replay: Option<Value>) {
             st.outcome(&(cfg.proto, o));
             st.nontrivial(&(cfg.key(), o));
         }
-        st.sample(|| json!({"config": cfg.json(), "executions": ex.executions, "discarded": ex.discarded, "executions_with_commits": ex.committed_some,
+        st.sample(|| json!({"config": cfg.json(), "bound": bound, "executions": ex.executions, "discarded": ex.discarded, "executions_with_commits": ex.committed_some,
                             "distinct_outcomes": ex.outcomes.len(), "max_decisions": ex.max_points, "one_outcome": ex.outcomes.iter().next_back()}));
         if ex.stopped_by_wall {
             st.cap(format!("{}: wall cap {}s hit after {} executions at bound {}", cfg.key(), wall_per_cfg, ex.executions, bound));
@@ -542,18 +645,17 @@ pub fn run(rep: &mut Report, thorough: bool, replay: Option<Value>) {
         if ex.capped_runs > 0 {
             st.cap(format!("{}: {} executions exceeded {} decisions", cfg.key(), ex.capped_runs, MAX_POINTS));
         }
-        if let Some((kind, msg, dec)) = ex.violation {
-            // re-execute once more before reporting
-            let mut ch = Chooser::replay(dec.clone());
-            let again = match sims.run(cfg, &mut ch) {
-                Exec::Done { verdict, .. } => verdict.is_err(),
-                Exec::Panicked(_) => true,
-                _ => false,
-            };
-            if !again {
-                machinery(&format!("{}: violation did not reproduce for decisions {dec:?}", cfg.key()));
+        if let Some((kind, msg, dec)) = ex.violation.clone() {
+            // re-execute once more (in a fresh process) before reporting
+            let tag = format!("{pid}-recheck");
+            let mut again = Explored::default();
+            let mut a2 = 0;
+            merge_end(&mut again, wait_worker(spawn_worker(json!({"kind": "replay", "cfg": cfg.json(), "decisions": dec}), &tag), &tag), &mut a2);
+            if again.violation.as_ref().map(|v| &v.0) != Some(&kind) {
+                machinery(&format!("{}: violation ({kind}) did not reproduce for decisions {dec:?}", cfg.key()));
             }
-            st.violation(format!("C40|{}|{kind}", cfg.key()), format!("{}: {msg}; decisions {dec:?}", cfg.key()), json!({"config": cfg.json(), "decisions": dec}));
+            let class = if kind == "abort" { format!("abort:{}", stable(&msg)) } else { kind.clone() };
+            st.violation(format!("C40|{}|{class}", cfg.key()), format!("{}: {msg}; decisions {dec:?}", cfg.key()), json!({"config": cfg.json(), "decisions": dec}));
         }
         rep.section(&cfg.key(), st);
     }
